@@ -191,7 +191,12 @@ class TdMpsJob(object):
                 os.remove(bak_path)
             os.rename(file_path, bak_path)
 
-        np.savez(file_path, **d)
+        # write to a temporary file and move it into place atomically, so that `file_path` is never
+        # a partially written file (a restart into this directory would otherwise trust it and
+        # delete the only complete backup)
+        tmp_path = os.path.join(self.dump_dir, self.job_name + ".tmp.npz")
+        np.savez(tmp_path, **d)
+        os.replace(tmp_path, file_path)
 
         if os.path.exists(bak_path):
             os.remove(bak_path)
